@@ -160,6 +160,8 @@ func runC17(p *Prog, r *Report) {
 		{"generator.(*fileManager).renderFiles", "files", ""},
 	})
 	packageErrorsFirstRule(p, r, "C17.O9")
+	c03R4(p, r, "C17.O10", []string{"", "cli", "cmd/goverter", "generator", "comments", "config"})
+	missingPatternRule(p, r, "C17.O11")
 }
 
 func needFunc(p *Prog, r *Report, key string) (*FuncInfo, *ssa.Function) {
@@ -892,6 +894,7 @@ func runC15(p *Prog, r *Report) {
 	getPackagesRule(p, r, "C15.R7")
 	outputPackageRule(p, r, "C15.R8")
 	armEffectRule(p, r, "C15.R9", "config.parseConverterLine", "output:package", "OutputPackagePath", "OutputPackageName")
+	resolvePackageRelRule(p, r, "C15.R10")
 }
 
 // c15R2b: keys of the rendered map are the fileManager keys, which are getOutputDir(conv).
@@ -1235,6 +1238,7 @@ func runC16(p *Prog, r *Report) {
 	ruleWhoMayWrite(p, r, "C16.R5")
 	noFsReadRule(p, r, "C16.R6")
 	flagsNotRewrittenRule(p, r, "C16.R7")
+	tagsOpaqueRule(p, r, "C16.R8")
 }
 
 func c16R1(p *Prog, r *Report) {
